@@ -79,7 +79,8 @@ def main():
     meta["detected_by"] = [r["check"] for r in meta["ran"] if r["exit"] == 1 and r["violation_lines"]]
     dst = os.path.join(V, "seeded", sid)
     os.makedirs(dst, exist_ok=True)
-    for f in ("patch.diff", "demo.cpp", "notes.md"):
+    extra_files = [f for f in os.listdir(src) if f.endswith((".h", ".hpp", ".inc")) and os.path.isfile(os.path.join(src, f))]
+    for f in ["patch.diff", "demo.cpp", "notes.md"] + extra_files:
         if os.path.exists(os.path.join(src, f)) and os.path.abspath(os.path.join(src, f)) != os.path.abspath(os.path.join(dst, f)):
             shutil.copy(os.path.join(src, f), os.path.join(dst, f))
     for d in os.listdir(src):
